@@ -17,6 +17,11 @@ CLAIMED = {
          "Same state space as C13; after every step the set of resolved result channels and their values (granted / failed / still waiting) must equal the reference model's, so an early, late, out-of-order, lost or duplicated grant in any reachable state is reported.",
          "Trusted: reference model (heads-only reading of 'ahead of it'), canonical key, sequential calls.",
          "DESIGN.md 6 C14"),
+ "C02": ("exploration",
+         "bounded-exhaustive enumeration of DAG shapes x selectors x store splits, each executed on two real instances, vs. an independent reference traversal",
+         "Every shape of the catalogue (all reachable edge sets over <=N blocks, link forms direct/inline/nested/list, field order, raw leaves, duplicate links), every selector of the catalogue and every one of the 4^N splits of the blocks between the two stores is run as one real two-node exchange through the real wire encoding; delivered nodes (in order), missing-block errors and the final store are compared with go-ipld-prime's own walker over the statement's loading rule. Exhaustive over the stated finite space; not a proof for larger DAGs.",
+         "Trusted: go-ipld-prime's walker as the meaning of selector traversal; the fake FIFO lossless network; default schedule only (schedules are C06/C20's subject). Two genuine defects are recorded as known findings (responder lacks root; skip window misaligned), one was repaired (fix: path-length heuristic).",
+         "DESIGN.md 6 C02"),
 }
 
 # properties not (yet) claimed -> reason
